@@ -166,6 +166,11 @@ class LenAnalysis:
         for c in ast.iter_child_nodes(e):
             if isinstance(c, ast.expr):
                 self.visit(c, st)
+            elif isinstance(c, ast.comprehension):
+                # the iterable (and, conservatively with the same lengths, the filters) of a comprehension
+                self.visit(c.iter, st)
+                for cond_ in c.ifs:
+                    self.visit(cond_, st.copy())
 
     # ------------------------------------------------------------ conditions
     def cond(self, e: ast.AST, st: State) -> Tuple[List[State], List[State]]:
@@ -345,6 +350,19 @@ class LenAnalysis:
             if node in (self.cfg.exit, self.cfg.raise_exit):
                 continue
             branches: Dict[Any, List[State]] = {}
+            # state an exception handler starts from: the state before this node, minus what the node may have rebound
+            pre = st.copy()
+            if node.ast is not None:
+                for x in ast.walk(node.ast):
+                    if isinstance(x, (ast.Name, ast.Attribute, ast.Subscript)) and isinstance(getattr(x, 'ctx', None), (ast.Store, ast.Del)):
+                        kk0 = self._key(x.value if isinstance(x, ast.Subscript) else x)
+                        if kk0:
+                            pre.lens.pop(kk0, None)
+                            pre.ints.pop(kk0, None)
+                    if isinstance(x, ast.Call) and isinstance(x.func, ast.Attribute) and x.func.attr in ('pop', 'append', 'extend', 'remove', 'insert', 'clear'):
+                        kk0 = self._key(x.func.value)
+                        if kk0:
+                            pre.lens.pop(kk0, None)
             if node.kind in ('test', 'loop_test'):
                 t, f_ = self.cond(node.ast, st.copy())  # type: ignore[arg-type]
                 branches = {True: t, False: f_}
@@ -369,6 +387,11 @@ class LenAnalysis:
                     self.visit(x, st)
             for s, lab in node.succ:
                 if lab == 'exc':
+                    # into a handler of an enclosing try (not out of the function): the handler body is analysed too
+                    if s is not self.cfg.raise_exit and s is not self.cfg.exit and (node.id, s.id) not in used.get(-1, ()):  # type: ignore[operator]
+                        u2 = dict(used)
+                        u2[-1] = tuple(used.get(-1, ())) + ((node.id, s.id),)  # type: ignore[assignment, arg-type]
+                        stack.append((s, pre.copy(), u2))
                     continue
                 is_back = isinstance(lab, tuple) and lab and lab[0] == 'back'
                 elabel = lab[1] if is_back else lab
